@@ -1,5 +1,6 @@
 import GcArena.Proofs.Events
 import GcArena.Proofs.Exact
+import GcArena.Proofs.RunBridge
 /-!
 # C02 — Exact, complete reclamation
 
@@ -109,6 +110,39 @@ theorem shell_release :
       · exact hnr hw
       · exact hnh j oj hj hoj hw
 
+/-- **Exactness, at the API** (proved): on any state an arena can reach, outside callbacks, two
+    consecutive `Arena::finish_cycle()` calls (self-driven: `Context::do_collection` literally)
+    leave allocated and undestructed exactly the objects that were strongly reachable from the
+    root before the first call. -/
+theorem exactness_run (n : Nat) (pre : List Op) :
+    let a := (Arena.new n).run pre
+    a.alive = true → a.cb = none →
+    let a2 := a.run [.collect .finishCycle .drop none none, .collect .finishCycle .drop none none]
+    a2.alive = true ∧ a2.root = a.root ∧
+    ∀ i, (∃ o, a2.ctx.heap.get i = some o ∧ o.live = true) ↔ StrongReach a i := by
+  intro a halive hcb a2
+  have h : Inv a := inv_run n pre halive
+  obtain ⟨hal, hroot, _, _, hctx⟩ := run_finishCycle2 h hcb .drop .drop
+  refine ⟨hal, hroot, fun i => ?_⟩
+  show (∃ o, a2.ctx.heap.get i = some o ∧ o.live = true) ↔ StrongReachC a.ctx a.root i
+  rw [hctx]
+  exact exactness a.ctx a.root (h.cinv0 hcb) i
+
+/-- **Shells, at the API** (proved): whatever else those two calls leave allocated is a
+    destructed shell whose `GcWeak` was stored in the root or in a strongly reachable object. -/
+theorem shells_run (n : Nat) (pre : List Op) :
+    let a := (Arena.new n).run pre
+    a.alive = true → a.cb = none →
+    let a2 := a.run [.collect .finishCycle .drop none none, .collect .finishCycle .drop none none]
+    ∀ i o, a2.ctx.heap.get i = some o → o.live = false →
+      some (Ptr.weak i) ∈ a.root ∨
+      ∃ j oj, StrongReach a j ∧ a.ctx.heap.get j = some oj ∧ some (Ptr.weak i) ∈ oj.slots := by
+  intro a halive hcb a2 i o ho hl
+  have h : Inv a := inv_run n pre halive
+  obtain ⟨_, _, _, _, hctx⟩ := run_finishCycle2 h hcb .drop .drop
+  rw [hctx] at ho
+  exact shells a.ctx a.root (h.cinv0 hcb) i o ho hl
+
 /-! ### Non-vacuity: a cycle of garbage and a weakly held shell -/
 
 /-- 0 ⇄ 1 is an unreachable cycle; 2 is held weakly by the root only. -/
@@ -190,5 +224,17 @@ example : (unheld.ctx.doCollection unheld.root .stop .finishCycle none).1.heap.g
     | edge _ _ _ _ ih => exact ih
   exact shell_release _ _ hc (by decide) 2 ⟨.white, true, false, []⟩ (by decide) rfl (by decide)
     (fun j _ hj => absurd hj (hunreach j))
+
+/-- `exactness_run` / `shells_run` on `demo.take 8` and on `held`, hypotheses discharged by
+    evaluation. -/
+example (i : Nat) : ¬ ∃ o, (((Arena.new 1).run (demo.take 8)).run
+    [.collect .finishCycle .drop none none, .collect .finishCycle .drop none none]).ctx.heap.get i = some o ∧
+      o.live = true :=
+  fun h => before_unreachable i (((exactness_run 1 (demo.take 8) (by decide) (by decide)).2.2 i).mp h)
+
+example : ∃ o, (held.run [.collect .finishCycle .drop none none,
+    .collect .finishCycle .drop none none]).ctx.heap.get 0 = some o ∧ o.live = true :=
+  ((exactness_run 1 [.enter .mutateRoot, .alloc true [none], .rootStore 0 (some (.strong 0)), .leave]
+    (by decide) (by decide)).2.2 0).mpr (.root 0 (by decide))
 
 end GcArena.C02
